@@ -23,6 +23,8 @@ PLANS = {
     "C16": [("timeout", 400, 10000)],
     "C06": [("base", 120, 3000), ("fwdonly", 120, 3000)],
     "C08": [],
+    # the event-loop side of C12 (lib/raw_checks.py holds the byte-level catalogue and calls run() here)
+    "C12": [("hostile", 250, 6000)],
 }
 
 
@@ -65,6 +67,8 @@ def nontrivial(pid, sc):
         return any(r["k"] in ("mget", "del", "mset") and len(r["slots"]) >= 2 for r in reqs)
     if pid == "C08":
         return any(s.get("cuts") for s in st)
+    if pid == "C12":
+        return any(r["k"] == "bad" for r in reqs) and len({s["c"] for s in st if s["op"] == "send"}) >= 2
     return True
 
 
@@ -172,6 +176,13 @@ def run(pid, tier, seed):
             if len(cov["samples"]) < 3:
                 cov["samples"].append({"source": tag, "cfg": cfg, "scenario": scs[0]})
             for v in r["viol"]:
+                if pid == "C12" and v["prop"] not in ("C12", "DEAD"):
+                    # whatever goes wrong on a connection that sent only valid requests, in an execution where another
+                    # one sent invalid bytes, is a disturbance of the others (the scenarios contain no other fault)
+                    sc = v.get("scenario")
+                    offenders = {x["c"] for x in _stims(sc) if x["op"] == "send" and any(r["k"] == "bad" for r in x["reqs"])} if sc else set()
+                    if offenders and v.get("c") and v["c"] not in offenders:
+                        v = dict(v, prop="C12", code="other-connection-disturbed:" + v["code"])
                 if tag in ("bp", "bp2") and (v["code"].startswith("request-") or v["code"] == "malformed-request-forwarded"):
                     v = dict(v, prop="C10", code="request-stream-to-node-corrupted:" + v["code"])
                 if v["prop"] == pid or v["prop"] == "DEAD":
